@@ -144,6 +144,10 @@ func (w *World) Resolve(v ssa.Value) ssa.Value {
 						v = s
 						continue
 					}
+					if s, ok := w.memEnv[a]; ok && s != nil {
+						v = s
+						continue
+					}
 				}
 			}
 			return v
@@ -548,5 +552,145 @@ func withClosures(fn *ssa.Function) []*ssa.Function {
 	for _, a := range fn.AnonFuncs {
 		out = append(out, withClosures(a)...)
 	}
+	return out
+}
+
+// variadicElems returns the elements of a variadic argument slice built at the call site
+// (t = new [n]T; t[i] = x; slice t[:]), or nil if v is not of that shape.
+func (w *World) variadicElems(v ssa.Value) []ssa.Value {
+	sl, ok := v.(*ssa.Slice)
+	if !ok {
+		return nil
+	}
+	al, ok := sl.X.(*ssa.Alloc)
+	if !ok {
+		return nil
+	}
+	arr, ok := al.Type().Underlying().(*types.Pointer).Elem().Underlying().(*types.Array)
+	if !ok {
+		return nil
+	}
+	out := make([]ssa.Value, arr.Len())
+	refs := al.Referrers()
+	if refs == nil {
+		return nil
+	}
+	for _, r := range *refs {
+		ia, ok := r.(*ssa.IndexAddr)
+		if !ok {
+			continue
+		}
+		c, ok := ia.Index.(*ssa.Const)
+		if !ok {
+			return nil
+		}
+		idx := int(c.Int64())
+		if iar := ia.Referrers(); iar != nil {
+			for _, rr := range *iar {
+				if st, ok := rr.(*ssa.Store); ok && st.Addr == ia && idx < len(out) {
+					out[idx] = st.Val
+				}
+			}
+		}
+	}
+	for _, e := range out {
+		if e == nil {
+			return nil
+		}
+	}
+	return out
+}
+
+// calleeName returns "pkgpath.Func" or "pkgpath.(Type).Method" of a call's static callee, or
+// "invoke:Method" for interface calls.
+func calleeName(c *ssa.CallCommon) string {
+	if c.IsInvoke() {
+		return "invoke:" + c.Method.Name()
+	}
+	if b, ok := c.Value.(*ssa.Builtin); ok {
+		return "builtin." + b.Name()
+	}
+	f := c.StaticCallee()
+	if f == nil {
+		return ""
+	}
+	return qualifiedName(f)
+}
+
+func qualifiedName(f *ssa.Function) string {
+	o := f.Object()
+	if o == nil || o.Pkg() == nil {
+		return f.String()
+	}
+	if recv := f.Signature.Recv(); recv != nil {
+		if n := namedOf(recv.Type()); n != nil {
+			return o.Pkg().Path() + ".(" + n.Obj().Name() + ")." + o.Name()
+		}
+	}
+	return o.Pkg().Path() + "." + o.Name()
+}
+
+// findCalls lists the call instructions (Call, Defer, Go) in fn whose callee name matches.
+func findCalls(fn *ssa.Function, match func(name string, c *ssa.CallCommon) bool) []ssa.CallInstruction {
+	var out []ssa.CallInstruction
+	allInstrs(fn, func(in ssa.Instruction) {
+		if ci, ok := in.(ssa.CallInstruction); ok {
+			if match(calleeName(ci.Common()), ci.Common()) {
+				out = append(out, ci)
+			}
+		}
+	})
+	return out
+}
+
+// errTestEdges finds the If instructions in fn that test value v against nil and returns,
+// for each, the successor index taken when v == nil (the "ok" edge).
+type errTest struct {
+	If     *ssa.If
+	OkSucc int // successor index for v == nil
+}
+
+func (w *World) nilTests(fn *ssa.Function, v ssa.Value) []errTest {
+	var out []errTest
+	allInstrs(fn, func(in ssa.Instruction) {
+		ifi, ok := in.(*ssa.If)
+		if !ok {
+			return
+		}
+		cond := ifi.Cond
+		neg := false
+		for {
+			u, ok := cond.(*ssa.UnOp)
+			if ok && u.Op == token.NOT {
+				neg = !neg
+				cond = u.X
+				continue
+			}
+			break
+		}
+		b, ok := cond.(*ssa.BinOp)
+		if !ok || (b.Op != token.EQL && b.Op != token.NEQ) {
+			return
+		}
+		var other ssa.Value
+		if w.Resolve(b.X) == v || b.X == v {
+			other = b.Y
+		} else if w.Resolve(b.Y) == v || b.Y == v {
+			other = b.X
+		} else {
+			return
+		}
+		if !isNilConst(other) {
+			return
+		}
+		okSucc := 0 // == nil true → succ 0
+		if b.Op == token.NEQ {
+			okSucc = 1
+		}
+		if neg {
+			okSucc = 1 - okSucc
+		}
+		out = append(out, errTest{If: ifi, OkSucc: okSucc})
+	})
 	return out
 }
